@@ -808,7 +808,15 @@ impl BigDecimal {
         }
 
         let uint = self.int_val.magnitude();
-        let result = arithmetic::inverse::impl_inverse_uint_scale(uint, self.scale, ctx);
+
+        // the magnitude is inverted and the sign copied afterwards, so rounding
+        // towards +/- infinity must be mirrored for negative values
+        let ctx = match (self.sign(), ctx.rounding_mode()) {
+            (Sign::Minus, RoundingMode::Floor) => ctx.with_rounding_mode(RoundingMode::Ceiling),
+            (Sign::Minus, RoundingMode::Ceiling) => ctx.with_rounding_mode(RoundingMode::Floor),
+            _ => ctx.clone(),
+        };
+        let result = arithmetic::inverse::impl_inverse_uint_scale(uint, self.scale, &ctx);
 
         // always copy sign
         result.take_with_sign(self.sign())
